@@ -21,6 +21,7 @@ if TYPE_CHECKING:
 
 from exabgp.bgp.message.action import Action
 from exabgp.bgp.message.update.nlri.nlri import _UNPARSED, NLRI
+from exabgp.logger import lazymsg, log
 from exabgp.protocol.family import AFI, SAFI
 from exabgp.protocol.ip import IP
 from exabgp.util.types import Buffer
@@ -381,10 +382,12 @@ class MPNLRICollection:
             payload = header
 
             for packed_nlri in packed_nlris:
+                if self._attr_len(header_length + len(packed_nlri)) > maximum:
+                    # no room for this prefix even on its own: leave it out rather than overflow
+                    log.critical(lazymsg('update.pack.error reason=attributes_too_large'), 'parser')
+                    continue
                 # Check if adding this NLRI would exceed maximum
                 if self._attr_len(len(payload) + len(packed_nlri)) > maximum:
-                    if len(payload) == header_length:
-                        raise RuntimeError('NLRI too large for attribute size limit')
                     # Yield current payload and start new one
                     yield self._attribute_header(self._CODE_MP_REACH_NLRI, len(payload)) + payload
                     payload = header + packed_nlri
@@ -429,10 +432,12 @@ class MPNLRICollection:
         payload = header
 
         for packed_nlri in packed_nlris:
+            if self._attr_len(header_length + len(packed_nlri)) > maximum:
+                # no room for this prefix even on its own: leave it out rather than overflow
+                log.critical(lazymsg('update.pack.error reason=attributes_too_large'), 'parser')
+                continue
             # Check if adding this NLRI would exceed maximum
             if self._attr_len(len(payload) + len(packed_nlri)) > maximum:
-                if len(payload) == header_length:
-                    raise RuntimeError('NLRI too large for attribute size limit')
                 # Yield current payload and start new one
                 yield self._attribute_header(self._CODE_MP_UNREACH_NLRI, len(payload)) + payload
                 payload = header + packed_nlri
